@@ -27,9 +27,9 @@ func genC19(verifSeed int64, tier string, idx int) *core.Scenario {
 	case "exists":
 		sp.Path = []string{"/data/store", "store-rel", "/data/store/"}[r.Intn(3)]
 	case "missing":
-		sp.Path = []string{"/data/new", "new-rel"}[r.Intn(2)]
+		sp.Path = []string{"/data/new", "new-rel", "/data/new/"}[r.Intn(3)]
 	case "missing-deep":
-		sp.Path = []string{"/data/a/b/c", "rel/a/b"}[r.Intn(2)]
+		sp.Path = []string{"/data/a/b/c", "rel/a/b", "/data/a/b/c/"}[r.Intn(3)]
 	case "file":
 		sp.Path = "/data/afile"
 	}
@@ -227,6 +227,12 @@ func (e *env) checkOne(id, via, after string, faulted bool) string {
 			e.violate("store:Retrieve:"+cls+":present", fmt.Sprintf("Retrieve(%q) returned a document that differs from the one stored (%s) %s", short(id), cls, after))
 			return cls
 		}
+		// the caller owns what it got: changing it must not change what the store returns next time
+		if doc.Metadata != nil {
+			doc.Metadata.Name += "-changed-by-caller"
+			doc.Metadata.Id = "changed-by-caller"
+		}
+		doc.NodeList = nil
 		return "ok"
 	case "after-failed-store":
 		if err != nil {
@@ -432,7 +438,12 @@ func (e *env) step(i int, st Step) string {
 			id = ""
 		}
 		j0 := len(e.disk.Journal)
-		err, abort, msg := e.store(doc, st.NoClobber, st.Via)
+		arg := doc
+		doc = proto.Clone(arg).(*sbom.Document) // the model keeps its own copy of what was handed to Store
+		err, abort, msg := e.store(arg, st.NoClobber, st.Via)
+		if abort == "" && !proto.Equal(arg, doc) {
+			e.violate("store:Store:argument-modified", fmt.Sprintf("Store(%q) changed the document it was given", short(id)))
+		}
 		faulted := totalFired(e.disk) > firedBefore
 		if abort != "" {
 			e.violate("store:Store:"+abort, fmt.Sprintf("Store(%q) ended in %s (%s)", short(id), abort, first(msg)))
